@@ -114,6 +114,10 @@ S('WIDTH_CURSOR', 'LOCATE {0},{1}:KEY ON:WIDTH 40:WIDTH 80:KEY OFF', 'ii', G, kw
 S('WIDTH_DEV', 'WIDTH {0},{1}', 'ni', [F], kw=['WIDTH'])
 S('WIDTH_FILE', 'WIDTH #{0},{1}', 'fi', [F], kw=['WIDTH'])
 S('WIDTH_LPRINT', 'WIDTH LPRINT {0}', 'i', kw=['WIDTH', 'LPRINT'])
+# a device / file width followed by output that computes columns from it (width 0 made SPC/TAB divide by zero)
+S('WIDTH_FILE_TAB', 'WIDTH #{0},{1}:PRINT#{0},TAB({2});SPC({2});1,2', 'fii', [F], kw=['WIDTH', 'PRINT', 'TAB(', 'SPC('])
+S('WIDTH_DEV_TAB', 'WIDTH "LPT1:",{0}:LPRINT TAB({1});SPC({1});1,2:WIDTH LPRINT {0}:LPRINT TAB({1}),3', 'ii', kw=['WIDTH', 'LPRINT', 'TAB(', 'SPC('])
+S('WIDTH_SCRN_TAB', 'WIDTH "SCRN:",{0}:PRINT TAB({1});SPC({1});1,2', 'ii', G, kw=['WIDTH', 'PRINT', 'TAB(', 'SPC('])
 S('SWAP', 'SWAP {0},{1}', 'vv')
 S('ERASE', 'ERASE B,{0}', 'v')
 S('EDIT', 'EDIT {0}', 'l', P, flags=['quick'])
